@@ -255,7 +255,7 @@ func checkToken(c TokenCase, u *vf.Unit) *vf.Verdict {
 			if err != nil || tok == nil {
 				return bad("token", "roundtrip-rejected", "DecodeToken(NewToken()) = %v", err)
 			}
-			if tok.IsRetryToken != (c.Mode == "retry") || tok.SentTime.UnixNano() < before.UnixNano() || tok.SentTime.UnixNano() > after.UnixNano() {
+			if tok.IsRetryToken != (c.Mode == "retry") || tok.SentTime.Before(before.Add(-2*time.Second)) || tok.SentTime.After(after.Add(2*time.Second)) {
 				return bad("token", "roundtrip-differs", "kind/time: %+v (window %v..%v)", tok, before, after)
 			}
 			if c.Mode == "new" {
